@@ -1061,3 +1061,100 @@ def variable_fonts_keep_metrics_outlines_and_kerning_at_every_location(tier, rnd
                             r.fail("pair %s at %s: subset %s, original %s | %s" % (list(pr), loc, y, x, _case_label(case)))
         r.sample({"font": rel, "axes": [a[0] for a in axes]})
     return r
+
+
+@check("C07")
+def variation_sequences_survive(tier, rnd):
+    """Fonts with a cmap format 14 subtable (corpus + generated): every request made of base
+    characters and variation selectors - all subsets of small base sets x selector sets, so that a
+    selector is requested with only its default sequences, only its non-default ones, or both -
+    keeps, for every requested (base, selector) pair the font had, the glyph HarfBuzz selects for
+    the sequence (by name); the subset saves, reloads, and its cmap refers to no removed glyph."""
+    from fontTools.ttLib import TTFont, newTable
+    from fontTools.ttLib.tables._c_m_a_p import cmap_format_14
+    from fontTools.fontBuilder import FontBuilder
+    from fontTools.pens.ttGlyphPen import TTGlyphPen
+
+    _quiet()
+    r = Result("cmap14 corpus font + generated fonts (2 selectors, 4 bases, default/non-default/mixed records) x every non-empty subset of "
+               "bases (<= 4) x every non-empty subset of selectors; distinct = (font, kinds of records requested per selector)")
+
+    def generated(k):
+        names = [".notdef"] + ["b%d" % i for i in range(4)] + ["v%d_%d" % (s, i) for s in range(2) for i in range(4)]
+        fb = FontBuilder(1000, isTTF=True)
+        fb.setupGlyphOrder(names)
+        bases = [0x4E00 + i for i in range(4)]
+        fb.setupCharacterMap({u: "b%d" % i for i, u in enumerate(bases)})
+        glyphs = {}
+        for j, n in enumerate(names):
+            pen = TTGlyphPen(None)
+            pen.moveTo((0, 0)); pen.lineTo((10 + j, 0)); pen.lineTo((10 + j, 10 + j)); pen.closePath()
+            glyphs[n] = pen.glyph()
+        fb.setupGlyf(glyphs)
+        fb.setupHorizontalMetrics({n: (500 + j, 0) for j, n in enumerate(names)})
+        fb.setupHorizontalHeader(); fb.setupNameTable({}); fb.setupOS2(); fb.setupPost()
+        uvs = {}
+        for s, sel in enumerate((0xFE00, 0xE0100)):
+            recs = []
+            for i, u in enumerate(bases):
+                kind = rnd.choice(("default", "nondefault", "none")) if k else ("default", "nondefault", "nondefault", "default")[(i + s) % 4]
+                if kind == "default":
+                    recs.append((u, None))
+                elif kind == "nondefault":
+                    recs.append((u, "v%d_%d" % (s, i)))
+            if recs:
+                uvs[sel] = recs
+        st = cmap_format_14(14)
+        st.platformID, st.platEncID, st.language, st.cmap, st.uvsDict = 0, 5, 0, {}, uvs
+        fb.font["cmap"].tables.append(st)
+        out = io.BytesIO()
+        fb.font.save(out)
+        return out.getvalue()
+
+    fonts = [("subset/data/cmap14_font1.ttx", _font_bytes("subset/data/cmap14_font1.ttx"))]
+    fonts += [("generated-uvs-%d" % k, generated(k)) for k in range(3 if tier == "quick" else 25)]
+    for label, data in fonts:
+        f = TTFont(io.BytesIO(data), lazy=False)
+        order = f.getGlyphOrder()
+        best = f.getBestCmap()
+        uvs = {}
+        for t in f["cmap"].tables:
+            if t.format == 14:
+                for sel, recs in t.uvsDict.items():
+                    for u, g in recs:
+                        uvs[(u, sel)] = g
+        sels = sorted({s for _, s in uvs})
+        bases = sorted({u for u, _ in uvs})
+        if len(bases) > 4:
+            bases = sorted(rnd.sample(bases, 4))
+        a = _HB(data, order)
+        for nb in range(1, len(bases) + 1):
+            for bs in itertools.combinations(bases, nb):
+                for ns in range(1, len(sels) + 1):
+                    for ss in itertools.combinations(sels, ns):
+                        kinds = tuple(sorted({(s, "default" if uvs[(u, s)] is None else "nondefault") for u in bs for s in ss if (u, s) in uvs}))
+                        r.case((label.split("-")[0], tuple(k for _, k in kinds)))
+                        req = list(bs) + list(ss)
+                        try:
+                            sub, sorder, s_ = _subset(data, unicodes=req)
+                            fs = TTFont(io.BytesIO(sub), lazy=False)
+                            b = _HB(sub, sorder)
+                        except Exception as e:
+                            r.fail("%s: subsetting to %s raised %s: %s" % (label, ["U+%04X" % u for u in req], type(e).__name__, str(e)[:120]))
+                            continue
+                        bad = _dangling(fs)
+                        if bad:
+                            r.fail("%s: subset to %s refers to removed glyphs %s" % (label, ["U+%04X" % u for u in req], sorted(bad)[:3]))
+                        for u in bs:
+                            for sel in ss:
+                                if (u, sel) not in uvs:
+                                    continue
+                                go = a.font.get_variation_glyph(u, sel)
+                                gs = b.font.get_variation_glyph(u, sel)
+                                want = order[go] if go else None
+                                got = sorder[gs] if gs else None
+                                if want != got:
+                                    r.fail("%s: <U+%04X, U+%04X> selects %s in the original and %s in the subset to %s" % (
+                                        label, u, sel, want, got, ["U+%04X" % x for x in req]))
+    r.sample({"fonts": [l for l, _ in fonts][:3]})
+    return r
